@@ -886,7 +886,10 @@ fn resolve_git_commondir(
     let git_commondir_file = || real_git_dir.join("commondir");
     let file = match File::open(git_commondir_file()) {
         Ok(file) => io::BufReader::new(file),
-        Err(_) => return Err(None),
+        // Without a `commondir` file (a submodule, or a repository created
+        // with --separate-git-dir), the git directory is its own common
+        // directory.
+        Err(_) => return Ok(real_git_dir),
     };
     let commondir_line = match file.lines().next() {
         Some(Ok(line)) => line,
